@@ -410,6 +410,22 @@ func execRoundTripInner(n *Node, sc *Scenario) *Violation {
 	if notes.NonUTCDates > 0 {
 		return mismatch("date-not-utc|"+sc.Decoder, "decoded date is not in UTC", nil)
 	}
+	// the decoded value is the caller's: unless the build shares string memory with its
+	// input (that option says so), it must not change when the input buffer is used again
+	if rb.Mask&2 == 0 {
+		for i := range do.Buf {
+			do.Buf[i] ^= 0xA5
+		}
+		for i := range data {
+			data[i] ^= 0xA5
+		}
+		if again, _, err := n.readBack(rb, sc.Type, do.Rec); err == nil {
+			if d := val.Diff(rb.Schema, t, expect, val.Canon(rb.Schema, t, again)); d != "" {
+				return mismatch("aliases-input|"+sc.Decoder+"|"+pathShape(d), fmt.Sprintf("%s -> %s: the decoded value changed when the input buffer was overwritten afterwards: %s", sc.Encoder, sc.Decoder, d),
+					map[string]string{"op": sc.Decoder, "path": pathShape(d)})
+			}
+		}
+	}
 	return nil
 }
 
